@@ -16,7 +16,12 @@ use std::hash::Hash;
 /// Capacity of every map / set.  Storage is a fixed array of slots, not a `Vec`: pushing onto a
 /// `Vec` of symbolic length makes CBMC explore the reallocation path (a memcpy of symbolic
 /// size) at every insertion.  Exceeding the capacity is a panic (i.e. a reported failure).
+#[cfg(not(feature = "cap4"))]
 pub const CAP: usize = 14;
+/// agent build: 4 slots are enough for the 2-policy / 3-range harnesses and every slot costs a
+/// loop iteration in every lookup
+#[cfg(feature = "cap4")]
+pub const CAP: usize = 4;
 
 /// Sparse slot storage: a slot is `Some(value)` or free; removing leaves a hole.  Keeping
 /// values where they were put (instead of compacting) means that a set built by a harness with
